@@ -382,10 +382,24 @@ Section LFrame.
 
   Notation solve_tM := (linker_solve_t_M num sub absf ltb zero sev pre ebefore eafter post).
   (* the same for the call as made: a guard that fires (ValueError / IndexError) changes nothing at all *)
+  Lemma seed_subs_P2 t' p q : forall ids subs, Forall2 (pfr t') subs (seed_subs num zero ids p q subs).
+  Proof.
+    induction ids as [|id r IH]; intros subs; cbn [Linker.seed_subs]; [apply P2_refl|].
+    destruct (find_sub id subs) as [c|] eqn:Ef; [|apply IH].
+    eapply P2_trans; [|apply IH]. eapply P2_put_sub; eauto. apply cfr_with_cvals.
+  Qed.
+  (* the offset seeding writes values only: no status / iteration entry moves *)
+  Lemma linker_seed_sfr t' ids o t s s0 : linker_seed num zero ids o t s = (s0, None) -> sfr t' s s0.
+  Proof.
+    intros H. destruct (linker_seed_spec num zero _ _ _ _ _ H) as [->|(p & q & ->)]; [apply sfr_refl|].
+    split; [apply cfr_with_cvals|apply seed_subs_P2].
+  Qed.
   Theorem solve_t_other_periods_untouched_M sel o t s : sfr t s (fst (solve_tM sel o t s)).
   Proof.
     unfold Linker.linker_solve_t_M. destruct (max_iter o <? min_iter o); [apply sfr_refl|].
-    destruct (linker_infeasible _ _ t); [apply sfr_refl|apply solve_t_other_periods_untouched].
+    destruct (linker_infeasible _ _ t); [apply sfr_refl|].
+    destruct (linker_seed num zero (sel_ids num sel s) o t s) as [s0 [e|]] eqn:ES; [apply sfr_refl|].
+    eapply sfr_trans; [eapply linker_seed_sfr; exact ES|apply solve_t_other_periods_untouched].
   Qed.
 
   (* ---- solve() over a list of positions: only the listed positions can change ---- *)
@@ -594,12 +608,27 @@ Section LRaise.
       eapply nostamp_trans; [exact H0|]. eapply nostamp_trans; eauto.
   Qed.
 
+  Lemma seed_subs_S2 p q : forall ids subs,
+    Forall2 (fun a b : sid * comp => fst a = fst b /\ cst (snd a) (snd b)) subs (seed_subs num zero ids p q subs).
+  Proof.
+    induction ids as [|id r IH]; intros subs; cbn [Linker.seed_subs]; [apply S2_refl|].
+    destruct (find_sub id subs) as [c|] eqn:Ef; [|apply IH].
+    eapply S2_trans; [|apply IH]. eapply S2_put_sub; eauto. reflexivity.
+  Qed.
+  Lemma linker_seed_nostamp ids o t s s0 : linker_seed num zero ids o t s = (s0, None) -> nostamp s s0.
+  Proof.
+    intros H. destruct (linker_seed_spec num zero _ _ _ _ _ H) as [->|(p & q & ->)]; [apply nostamp_refl|].
+    split; [reflexivity|]. split; [reflexivity|apply seed_subs_S2].
+  Qed.
+
   Theorem user_exception_stamps_nothing_M sel o t s c :
     snd (linker_solve_t_M num sub absf ltb zero sev pre ebefore eafter post sel o t s) = LRaise (LUser c) ->
     nostamp s (fst (linker_solve_t_M num sub absf ltb zero sev pre ebefore eafter post sel o t s)).
   Proof.
     unfold Linker.linker_solve_t_M. destruct (max_iter o <? min_iter o); [discriminate|].
-    destruct (linker_infeasible _ _ t); [discriminate|apply user_exception_stamps_nothing].
+    destruct (linker_infeasible _ _ t); [discriminate|].
+    destruct (linker_seed num zero (sel_ids num sel s) o t s) as [s0 [e|]] eqn:ES; [discriminate|].
+    intros H. eapply nostamp_trans; [eapply linker_seed_nostamp; exact ES|apply (user_exception_stamps_nothing sel o t s0 c H)].
   Qed.
 End LRaise.
 
@@ -757,6 +786,10 @@ Section LStatus.
     assert (Triv : exists x, (x = Solved \/ x = Failed) /\ only_stamped x s s).
     { exists Failed. split; [right; reflexivity|apply only_stamped_of_nostamp; apply nostamp_refl]. }
     unfold Linker.linker_solve_t_M. destruct (max_iter o <? min_iter o); [exact Triv|].
-    destruct (linker_infeasible _ _ t); [exact Triv|apply solve_t_stamps_only_solved_or_failed].
+    destruct (linker_infeasible _ _ t); [exact Triv|].
+    destruct (linker_seed num zero (sel_ids num sel s) o t s) as [s0 [e|]] eqn:ES; [exact Triv|].
+    destruct (solve_t_stamps_only_solved_or_failed sel o t s0) as (x & Hx & Hs).
+    exists x. split; [exact Hx|]. eapply only_stamped_trans; [|exact Hs].
+    apply only_stamped_of_nostamp. eapply linker_seed_nostamp; exact ES.
   Qed.
 End LStatus.
